@@ -47,6 +47,10 @@ type wk struct {
 	accepted              bool
 	regTick               uint64 // tick after the accepting BackgroundWorker call returned
 	preRun                bool   // registered before Run/Start was called
+	// disc family (disc.go): re-entrant calls made from inside the handler
+	cmd       chan func() // closures the controller hands to the handler while it is running
+	atStart   []func()    // closures the handler runs first thing
+	retAtOnce bool        // the handler returns right after its at-start closures
 }
 
 func newWk(name string, order int, hasOrder bool) *wk {
